@@ -22,6 +22,8 @@ NS = "Pysersic.Props.C17."
 OBLIGATIONS = [NS + t for t in [
     "border_mem_iff", "border_nodup", "border_length", "used_iff", "count_eq",
     "estimate_invariant", "interior_not_used", "masked_not_used",
+    "repo_slices", "repo_gather_keeps_mask", "effMask_combine", "masks_honoured_combine", "repo_mask_rule",
+    "repo_masks_honoured", "either_masked_not_used", "argIfImageUnmasked_violates", "argIfNotMaskedArray_violates",
 ]]
 MIRRORED_FILES = ["pysersic/priors.py"]
 ASSUMPTIONS = [
@@ -72,7 +74,14 @@ def border_bool(H, W, n):
 
 
 STYLES = ["none", "empty", "random", "random", "most-border", "rows", "corner", "interior"]
-CALLS = ["arg", "masked_array", "arg", "masked_array", "arg-int", "arg-float"]
+CALLS = ["arg", "masked_array", "arg", "masked_array", "arg-int", "arg-float", "both", "both-empty"]
+
+
+def split_mask(mask):
+    """call style `both`: part of the mask travels with the image (numpy masked array), the rest is passed separately"""
+    mask = np.asarray(mask, dtype=bool)
+    own = mask & ((np.arange(mask.size).reshape(mask.shape) % 2) == 0)
+    return own, mask & ~own
 
 
 def call_real(image, mask, n, how):
@@ -91,6 +100,11 @@ def call_real(image, mask, n, how):
             out = pri.estimate_sky(image, n_pix_sample=n)
         elif how == "masked_array":
             out = pri.estimate_sky(np.ma.masked_array(image, mask), n_pix_sample=n)
+        elif how == "both":
+            own, arg = split_mask(mask)
+            out = pri.estimate_sky(np.ma.masked_array(image, own), mask=arg, n_pix_sample=n)
+        elif how == "both-empty":
+            out = pri.estimate_sky(np.ma.masked_array(image), mask=mask, n_pix_sample=n)
         elif how == "arg-int":
             out = pri.estimate_sky(image, mask=mask.astype(int), n_pix_sample=n)
         elif how == "arg-float":
@@ -116,14 +130,31 @@ def gen_cases(rng, n_cases):
         style = STYLES[int(rng.integers(0, len(STYLES)))]
         how = CALLS[int(rng.integers(0, len(CALLS)))]
         mask = make_mask(rng, H, W, n, style)
-        cases.append(dict(H=H, W=W, n=n, style=style, how=how if mask is not None else "nomask", mask=mask))
+        cases.append(dict(H=H, W=W, n=n, style=style, how=how if mask is not None else "nomask", mask=mask, ties=(k % 3 == 0)))
     return cases
 
 
+def _tok(m):
+    if m is None:
+        return "none"
+    idx = [str(int(i)) for i in np.flatnonzero(np.asarray(m).ravel())]
+    return ",".join(idx) if idx else "-"
+
+
 def model_line(c):
-    m = c["mask"]
-    idx = [] if m is None else [str(int(i)) for i in np.flatnonzero(np.asarray(m).ravel())]
-    return "sky %d %d %d %s" % (c["H"], c["W"], c["n"], " ".join(idx))
+    """what the image carries as a numpy masked array (`own`) and what is passed separately (`arg`)"""
+    m, how = c["mask"], c["how"]
+    if m is None:
+        own, arg = None, None
+    elif how == "masked_array":
+        own, arg = m, None
+    elif how == "both":
+        own, arg = split_mask(m)
+    elif how == "both-empty":
+        own, arg = np.zeros_like(np.asarray(m, dtype=bool)), m
+    else:
+        own, arg = None, m
+    return "sky2 %d %d %d %s %s" % (c["H"], c["W"], c["n"], _tok(own), _tok(arg))
 
 
 def expected_stats(image, mask, n):
@@ -148,7 +179,11 @@ def close(a, b):
 def oracle_case(rng, c):
     """Property criterion on the real code for one configuration; returns list of Violation."""
     H, W, n, mask, how = c["H"], c["W"], c["n"], c["mask"], c["how"]
-    image = rng.normal(0, 1, size=(H, W)) * 3 + 10
+    if c.get("ties"):
+        # photon counts / clipped or padded borders: many equal values ("arbitrary pixel values")
+        image = rng.integers(0, 4, size=(H, W)).astype(float) + (10.0 if rng.random() < 0.5 else 0.0)
+    else:
+        image = rng.normal(0, 1, size=(H, W)) * 3 + 10
     out = []
     try:
         med, sc, cnt, _ = call_real(image, mask, n, how)
@@ -159,9 +194,9 @@ def oracle_case(rng, c):
 
     def viol(clause, msg):
         nm = 0 if mask is None else int((np.asarray(mask, bool) & border_bool(H, W, n)).sum())
-        sig = f"C17:{clause}:masked-border={'yes' if nm else 'no'}:call={'masked_array' if how == 'masked_array' else 'mask-arg' if how.startswith('arg') else 'nomask'}"
+        sig = f"C17:{clause}:masked-border={'yes' if nm else 'no'}:call={'masked_array' if how == 'masked_array' else 'mask-arg' if how.startswith('arg') else 'both' if how.startswith('both') else 'nomask'}"
         return Violation(sig, f"{clause}: {msg} (H={H}, W={W}, n={n}, mask style {c['style']}, call {how}, masked border pixels {nm})",
-                         dict(kind="oracle", H=H, W=W, n=n, style=c["style"], how=how, clause=clause,
+                         dict(kind="oracle", H=H, W=W, n=n, style=c["style"], how=how, clause=clause, ties=bool(c.get("ties")),
                               mask=None if mask is None else np.asarray(mask).astype(int).tolist()))
     if cnt != ecnt:
         out.append(viol("count", f"returned count {cnt}, unmasked border pixels {ecnt}"))
@@ -205,6 +240,8 @@ CORPUS = [
     dict(H=3, W=3, n=1, style="corner", how="arg"),
     dict(H=30, W=30, n=5, style="rows3", how="arg"),
     dict(H=30, W=30, n=5, style="rows3", how="masked_array"),
+    dict(H=30, W=30, n=5, style="rows3", how="both"),          # the witness of Props.C17.argIfImageUnmasked_violates, at size
+    dict(H=12, W=9, n=2, style="random", how="both-empty", ties=True),
     dict(H=7, W=12, n=2, style="most-border", how="masked_array"),
 ]
 
@@ -333,7 +370,7 @@ def oracle_search(ctx, hints):
     for h in hints[:100]:
         if "H" in h:
             m = None if h.get("mask") is None else np.asarray(h["mask"], dtype=bool)
-            cases.append(dict(H=h["H"], W=h["W"], n=h["n"], style=h.get("style", "hint"), how=h.get("how", "arg"), mask=m))
+            cases.append(dict(H=h["H"], W=h["W"], n=h["n"], style=h.get("style", "hint"), how=h.get("how", "arg"), mask=m, ties=bool(h.get("ties"))))
     cases += corpus_cases(rng) + gen_cases(rng, 1500)
     out = []
     for c in cases:
@@ -353,7 +390,7 @@ def replay(ctx, payload):
     rng = ctx.rng("replay")
     m = None if payload.get("mask") is None else np.asarray(payload["mask"], dtype=bool)
     c = dict(H=payload["H"], W=payload["W"], n=payload["n"], style=payload.get("style", "replay"),
-             how=payload.get("how", "arg"), mask=m)
+             how=payload.get("how", "arg"), mask=m, ties=bool(payload.get("ties")))
     if payload.get("kind") == "oracle-sp":
         return oracle_source_properties(rng, c)
     return oracle_case(rng, c)
